@@ -222,10 +222,12 @@ def case_lazy(rng: Any, ctx: Ctx, index: int) -> None:
         res = m @ dense.flatten_np(z) - yn
         ref = np.linalg.solve(m, yn)
         bound = 10 * (tol + tol * np.linalg.norm(yn)) * max(1.0, cond)
+        # the solvers stop on the residual: no condition-number factor there (float32 round-off floor: 2e-6 cond |y|)
+        rbound = 10 * (tol + tol * np.linalg.norm(yn)) + (2e-6 * cond * np.linalg.norm(yn) if f32 else 0.0)
         LOG.evaluated('C06.lazy-solve')
-        if not np.all(np.isfinite(res)) or np.linalg.norm(res) > bound:
+        if not np.all(np.isfinite(res)) or np.linalg.norm(res) > rbound:
             LOG.violation('C06', 'C06.lazy-solve', f'InverseOperator.mv/residual/{name.split("-")[0]}',
-                          f'|A z - y| = {np.linalg.norm(res):.3g} > {bound:.3g} (solver {name}, cond {cond:.3g})',
+                          f'|A z - y| = {np.linalg.norm(res):.3g} > {rbound:.3g} (solver {name}, cond {cond:.3g})',
                           expr=dense.describe(a))
         if np.linalg.norm(dense.flatten_np(z) - ref) > bound:
             LOG.violation('C06', 'C06.lazy-solve', f'InverseOperator.mv/solution/{name.split("-")[0]}',
